@@ -63,13 +63,26 @@ def supers (c : String) : List String :=
   else if c = "BaseException" then ["BaseException"]
   else [c]
 
+/-- what `getattr(exc, "vgi_auth_reason", None)` finds on an exception raised by an authenticator the package does not
+    control: the attribute is duck-typed, so it can hold anything -/
+inductive Declared where
+  /-- no attribute, or `None` -/
+  | absent
+  /-- an `AuthReason` member -/
+  | member (r : Reason)
+  /-- a plain `str` (not an `AuthReason` instance): a wire value of the set, a foreign / re-cased code, `""` … -/
+  | text (s : Str)
+  /-- any other object (`int`, `bytes`, `list`, `object()` …) -/
+  | other
+deriving Repr, DecidableEq
+
 inductive Exc where
   /-- `AuthFailure(reason, detail)` — carries `.reason` and the `vgi_auth_reason` attribute -/
   | authFailure (r : Reason) (detail : Str)
-  /-- any other `ValueError` (sub)class; `declared` = a duck-typed `vgi_auth_reason` attribute that is an `AuthReason` -/
-  | valueError (declared : Option Reason) (str : Str) (tyName : Str)
+  /-- any other `ValueError` (sub)class; `declared` = its duck-typed `vgi_auth_reason` attribute -/
+  | valueError (declared : Declared) (str : Str) (tyName : Str)
   /-- `PermissionError` and subclasses (`ProofError` declares `proxy_required`) -/
-  | permissionError (declared : Option Reason) (str : Str)
+  | permissionError (declared : Declared) (str : Str)
   /-- `AuthUnavailableError(detail, retry_after=n)` -/
   | unavailable (retryAfter : Int) (detail : Str)
   /-- any exception that is neither a `ValueError`, an `OSError` nor an `AuthUnavailableError` (a bug in the callback) -/
@@ -105,11 +118,18 @@ def Exc.tyName : Exc → Str
   | .unavailable .. => "AuthUnavailableError".toList
   | .other t => t
 
-/-- `getattr(exc, REASON_ATTR, None)` when it is an `AuthReason` -/
-def Exc.declared : Exc → Option Reason
-  | .authFailure r _ => some r
+/-- `getattr(exc, REASON_ATTR, None)` -/
+def Exc.attr : Exc → Declared
+  | .authFailure r _ => .member r
   | .valueError d _ _ => d
   | .permissionError d _ => d
+  | _ => .absent
+
+/-- the declaration `classify_auth_failure` honours: the guard is `isinstance(declared, AuthReason)`, so only a member
+    counts — a string (even one spelling a member's value), a number, any other object falls through to the guess -/
+def Exc.declared (e : Exc) : Option Reason :=
+  match e.attr with
+  | .member r => some r
   | _ => none
 
 /-- `exc.retry_after` -/
